@@ -2043,6 +2043,8 @@ class PseudoNetCDFFile(PseudoNetCDFSelfReg, object):
             if dk in dimslices:
                 if dk in self.variables:
                     dvar = self.variables[dk]
+                    if dvar.ndim != 1:
+                        dvar = np.arange(len(dv))
                 else:
                     dvar = np.arange(len(dv))
                 newdl = dvar[dimslices[dk]].size
